@@ -371,9 +371,12 @@ class MultiPort(BaseIOPort):
                 port.send(message)
 
     def _receive(self, block=True):
+        # Only what is pending now: receive() does the waiting. (With
+        # block=True multi_receive() is an endless generator and extend()
+        # would never return.)
         self._messages.extend(multi_receive(self.ports,
                                             yield_ports=self.yield_ports,
-                                            block=block))
+                                            block=False))
 
 
 def multi_receive(ports, yield_ports=False, block=True):
